@@ -2,12 +2,12 @@
 (* Model check of the event schedule of IterSchedule.tla (which sub-iterations trigger which    *)
 (* filter / report / file): the theorems EvTheorems for every small event configuration.        *)
 EXTENDS TLC, Integers, Sequences, FiniteSets
-CONSTANTS MaxN, MaxK
+CONSTANTS MaxN, MaxK, MaxI
 VARIABLES h, res
 IS == INSTANCE IterSchedule WITH g <- [N |-> 1], subiter <- 1, perm <- << >>, block <- << >>, hist <- << >>, crashed <- FALSE
 Hs == { x \in [algo : {"OSMAPOSL", "OSSPS"}, N : 1 .. MaxN, startSubset : {0}, startSubiter : 1 .. MaxK, numSubiters : 1 .. MaxK,
-               randomise : {FALSE}, save : 1 .. MaxK, iuInt : 0 .. 3, hasIU : BOOLEAN, iiInt : 0 .. 3, hasII : BOOLEAN, hasPF : BOOLEAN,
-               report : 0 .. 2, writeUpdate : BOOLEAN, disableOutput : BOOLEAN] :
+               randomise : {FALSE}, save : 1 .. MaxK, iuInt : 0 .. MaxI, hasIU : BOOLEAN, iiInt : 0 .. MaxI, hasII : BOOLEAN, hasPF : BOOLEAN,
+               report : 0 .. MaxI, writeUpdate : BOOLEAN, disableOutput : BOOLEAN] :
           /\ ~IS!SetupMustFail(x)
           /\ (x.iuInt = 0 => ~x.hasIU) /\ (x.iiInt = 0 => ~x.hasII) /\ (x.algo = "OSSPS" => (x.iuInt = 0 /\ ~x.hasIU)) }
 Init == h \in Hs /\ res = "todo"
